@@ -665,8 +665,10 @@ def processCustom (env : CharEnv) (L : Lexicon) (custom : List (Str × Str)) : M
   custom.foldlM (fun acc (k, v) =>
     let name := lower k
     if !(Rx.isMatch env L.reCustom name) then .error { kind := .badCustomName, pattern := [], offset := 0 }
-    else if acc.any (fun e => e.1 == name) then .error { kind := .customCollision, pattern := [], offset := 0 }
-    else .ok (acc.set (cssUnescape env L name) (.src v))) []
+    else
+      let key := cssUnescape env L name
+      if acc.any (fun e => e.1 == key) then .error { kind := .customCollision, pattern := [], offset := 0 }
+      else .ok (acc.set key (.src v))) []
 
 /-- `CSSParser(pattern, custom, flags).process_selectors()` as `_cached_css_compile` calls it. -/
 def compile (env : CharEnv) (L : Lexicon) (B : Builtins) (pattern : Str) (custom : List (Str × Str))
